@@ -1,4 +1,5 @@
 import PcfgVerif.Properties.PQRestore
+import PcfgVerif.Generated.Session
 /-!
 # C08 — resuming a saved session loses nothing and repeats at most the tied group
 
@@ -91,5 +92,12 @@ theorem C08_operators (O : POps P) (a b : P) :
 example : Pcfg.Example.finalR.popped.Perm
     ((allNodes Pcfg.Example.g0).filter fun v => natAlg.le (nodeProb natAlg.toPOps Pcfg.Example.g0 v) 64) :=
   (C08_resume natAlg _ Pcfg.Example.wf0 64 0 Pcfg.Example.hmin0 _ Pcfg.Example.reachR).2.2.2 rfl
+
+/-- a session is refused when the ruleset's UUID differs from the saved one, and the save file is read
+before the grammar is built (so the saved flags decide what is loaded): facts of `pcfg_guesser.main`
+regenerated from the source; the refusal itself is exercised by the harness on the real program -/
+theorem C08_uuid_refused :
+    Generated.Session.uuidMismatchRefuses = true ∧ Generated.Session.loadSaveBeforeGrammar = true := by
+  decide
 
 end Pcfg.C08
